@@ -5,3 +5,11 @@ import GrinVerif.Model.Blake2b
 import GrinVerif.Model.Pmmr
 import GrinVerif.Lemmas.PmmrArith
 import GrinVerif.Props.C07
+import GrinVerif.Model.Chain
+import GrinVerif.Lemmas.ChainBasic
+import GrinVerif.Lemmas.ChainApply
+import GrinVerif.Props.C01
+import GrinVerif.Props.C02
+import GrinVerif.Props.C03
+import GrinVerif.Props.C06
+import GrinVerif.Props.C13
